@@ -270,7 +270,9 @@ func (g *genCtx) resolved(t genTriple, seed uint64, mask uint8) genTriple {
 	} else if _, err := os.Stat(path); err != nil {
 		_ = os.WriteFile(path, []byte(strings.Join(synthSchemaParts(seed, mask, t.SynthAnnotate), "")), 0o644)
 	}
-	t.Inputs = []string{path}
+	// generation children run with the scratch directory as working directory and get the schema by its relative
+	// name: outputs that quote their source path (canonical form, tlo) then do not depend on the scratch name
+	t.Inputs = []string{filepath.Base(path)}
 	t.Base = t.Name
 	t.Name = fmt.Sprintf("%s[%016x/%02x]", t.Name, seed, mask)
 	return t
@@ -296,6 +298,11 @@ func triples() []genTriple {
 		{Name: "go-bootstrap-nobasic", Tool: "tl2gen", Args: []string{"--language=go", "--copyrightPath=/repo/COPYRIGHT", "--pkgPath=github.com/VKCOM/tl/x/tlo/tl"}, Inputs: []string{"/repo/internal/tlast/tls.tl"}, Marker: "meta/meta.go"},
 		{Name: "go-cycles-split", Tool: "tl2gen", Args: append(append([]string{}, goBase...), "--split-internal", "--pkgPath=github.com/VKCOM/tl/x/cyc/tl", "--generateRandomCode"), Inputs: []string{xsDir + "cycles.tl"}, Marker: "meta/meta.go"},
 		{Name: "go-cycles-split-bytes", Tool: "tl2gen", Args: append(append([]string{}, goBase...), "--split-internal", "--pkgPath=github.com/VKCOM/tl/x/cyc/tl", "--generateByteVersions=*"), Inputs: []string{xsDir + "cycles.tl"}, Marker: "meta/meta.go"},
+		// templates instantiated several times under external and local fields masks, a union over instantiations
+		{Name: "go-masks", Tool: "tl2gen", Args: append(append([]string{}, goBase...), "--pkgPath=github.com/VKCOM/tl/x/masks/tl", "--generateRPCCode", "--generateRandomCode"), Inputs: []string{xsDir + "masks.tl"}, Marker: "meta/meta.go"},
+		{Name: "go-masks-split-bytes", Tool: "tl2gen", Args: append(append([]string{}, goBase...), "--split-internal", "--pkgPath=github.com/VKCOM/tl/x/masks/tl", "--generateByteVersions=*"), Inputs: []string{xsDir + "masks.tl"}, Marker: "meta/meta.go"},
+		{Name: "php-masks", Tool: "tl2gen", Args: []string{"--language=php", "--php-rpc-support=true", "--php-serialization-bodies=true", "--php-generate-fetchers=true", "--php-generate-switcher=true", "--php-use-builtin-data-providers=true", "--php-add-type-comments=true", "--php-generate-fetchers-echo-comment=false"}, Inputs: []string{xsDir + "masks.tl"}, Marker: "VK/TL/RpcFunctionFetcher.php"},
+		{Name: "cpp-masks", Tool: "tlgen", Args: []string{"-language=cpp", "--cpp-generate-meta=true", "--cpp-generate-factory=true"}, Inputs: []string{xsDir + "masks.tl"}, Marker: "tlgen2_version.txt"},
 		{Name: "go-dirs", Tool: "tl2gen", Args: append(append([]string{}, goBase...), "--pkgPath=github.com/VKCOM/tl/x/dirs/tl"), Inputs: []string{xsDir + "dirA", xsDir + "dirB", xsDir + "dirC"}, Marker: "meta/meta.go"},
 		{Name: "canonical-dirs", Tool: "tl2gen", Args: []string{"--language=canonical"}, Inputs: []string{xsDir + "dirA", xsDir + "dirB", xsDir + "dirC"}, Outfile: "dirs_canonical.tl", NoDir: true},
 		// the same file reachable through two roots with different spellings: rejected today in every order (the
@@ -363,6 +370,13 @@ type plantSpec struct {
 
 // a directory next to the output directory that foreign symbolic links point into; nothing in it may ever change
 const elsewhere = simRoot + "/work/elsewhere"
+
+// nestedMarkerPlants: somebody else's tree that holds a marker file of ours only deeper down (the parent of an old
+// output directory given as --outdir by mistake): no marker at the top level, so it must be refused untouched
+func nestedMarkerPlants(marker string) []plantSpec {
+	return []plantSpec{{Path: "README.md", Content: "a project, not generated code\n"}, {Path: "src/main.cpp", Content: "int main() {}\n"},
+		{Path: "zz_old/gen/" + marker, Content: "marker of an earlier generation elsewhere"}, {Path: "zz_old/gen/" + filepath.Base(marker), Content: "same, by base name"}}
+}
 
 // dotPlants: a directory that is not ours and holds only hidden files (a fresh clone, an editor's settings)
 func dotPlants(r *rand.Rand) []plantSpec {
@@ -446,6 +460,8 @@ func (genEngine) Gen(seed uint64, params map[string]any) json.RawMessage {
 			h := histGen{Variant: genVariant(r, 0), Files: synthFiles(r, 10, "meta/marker.txt")}
 			if i == 0 && r.IntN(8) == 0 {
 				h.Plant = append(h.Plant, dotPlants(r)...) // somebody else's directory that only holds hidden files
+			} else if i == 0 && r.IntN(10) == 0 {
+				h.Plant = append(h.Plant, nestedMarkerPlants("meta/marker.txt")...)
 			}
 			if i > 0 && r.IntN(3) == 0 {
 				switch r.IntN(5) {
@@ -510,6 +526,8 @@ func (genEngine) Gen(seed uint64, params map[string]any) json.RawMessage {
 			h := histGen{Triple: ti, Variant: genVariant(r, len(ts[ti].Inputs))}
 			if i == 0 && r.IntN(8) == 0 && params["enumerate"] != true {
 				h.Plant = append(h.Plant, dotPlants(r)...)
+			} else if i == 0 && r.IntN(8) == 0 && params["enumerate"] != true {
+				h.Plant = append(h.Plant, nestedMarkerPlants(ts[ti].Marker)...)
 			}
 			if ts[ti].Synth {
 				h.SchemaSeed, h.SchemaMask = r.Uint64(), uint8(1+r.IntN(255))
@@ -653,6 +671,7 @@ func (g *genCtx) child(job genJob) (genResult, error) {
 	}
 	cmd := exec.Command(os.Args[0], "-test.run", "^TestVerifGenChild$", "-test.count", "1", "-test.cpu", "1", "-test.timeout", "20m")
 	cmd.Env = append(os.Environ(), "VERIF_GEN_JOB="+jobPath, "VERIF_WORKER=")
+	cmd.Dir = g.dir
 	outb, err := cmd.CombinedOutput()
 	rb, rerr := os.ReadFile(job.ResultOut)
 	if rerr != nil {
